@@ -65,7 +65,7 @@ def run_gen(binp, prop, nh, scd, procs=4, extra=(), tag="gen", timeout=1500):
 
 # ---------------------------------------------------------------- trace validation
 
-DROP_FOR_TLC = ("preprobes", "sql", "tags", "create", "ops", "note")
+DROP_FOR_TLC = ("preprobes", "sql", "tags", "create", "ops", "note", "setup")
 
 
 def slim(line):
